@@ -1,6 +1,9 @@
 //! C12 correspondence: compiled functions under concurrent use.
 //!
-//! `c12 run <seed> <tier> [--repo <path>] [--fn-bounds "<w w w;w w …>"]`
+//! `c12 run <seed> <tier> [--repo <path>] [--fn-bounds "<w w w;w w …>"] [--focus c1,c2]`
+//!   0. share cases (`../c12/share.rs`, one worker process per case): lists,
+//!      registered closures / constants and `into_func` closures shared
+//!      between threads through the safe API (`--focus` restricts the classes).
 //!   1. rustc probe: three tiny programs built against the repository under
 //!      test (in `target/c12-probe`): a `move` closure capturing a `Cell`
 //!      (must be rejected; if it builds it is run: 4 × 100 000 increments
@@ -16,8 +19,16 @@
 //!      packages and the main thread drops the package and the runtime. Every
 //!      result must equal the single-threaded one; the drop-tracked token
 //!      count must return to its baseline; the atomic tick count is exact.
-//! `c12 replay <json>` re-runs one case (`{"kind":"stress","seed":..,"index":..,"tier":..}`
-//!   or `{"kind":"probe"}`); `c12 dump <source>` prints the LIR dump.
+//!      A fourth probe moves an `into_func` closure to another thread, drops
+//!      package and runtime and calls it there (must build and be right).
+//! `c12 share <seed> <tier> [--focus c1,c2] [--budget-s N]` search mode: only the
+//!   share classes, new indices and escalating attempts (rounds x 4^k, k <= 2)
+//!   until a violation is found or the budget (default 90 s) is used; the first
+//!   pass always completes (`--budget-s 0` = exactly the pass `run` does).
+//! `c12 replay <json>` re-runs one case (`{"kind":"stress","seed":..,"index":..,"tier":..}`,
+//!   `{"kind":"share","class":..,"seed":..,"index":..,"tier":..}` — up to 8 attempts,
+//!   stops at the first reproduction — or `{"kind":"probe"}`); `c12 dump <source>`
+//!   prints the LIR dump.
 
 use roto::{Context, FileTree, NoCtx, RotoString, Runtime, TypedFunc, Val, library};
 use rotov_harness::driver::{Driver, hex};
@@ -31,9 +42,14 @@ use std::sync::atomic::{AtomicI64, AtomicU64, Ordering};
 use std::sync::{Arc, Barrier, Mutex};
 use std::time::{Duration, Instant};
 
+#[path = "../c12/share.rs"]
+mod share;
+
 // ------------------------------------------------------------ tracked token
 
 static LIVE: AtomicI64 = AtomicI64::new(0);
+/// the last cumulative report of a stress worker, as JSON text (for the panic hook)
+static LAST_REPORT: Mutex<String> = Mutex::new(String::new());
 static CREATED: AtomicU64 = AtomicU64::new(0);
 
 #[derive(Debug, PartialEq)]
@@ -809,6 +825,31 @@ fn main() {
 }
 "#;
 
+/// The closure `into_func` returns is an `impl Fn` that leaks its auto traits:
+/// as long as it is `Send` it is a handle that other threads call after every
+/// other owner is gone, and must keep the module alive like any handle.
+const PROBE_INTO_FUNC_SEND: &str = r#"
+use roto::{FileTree, Runtime};
+fn main() {
+    let rt = Runtime::new();
+    let src = "fn main(x: u32) -> u32 { let i = 0; let res = 0; while i < x { res = res + 2 * i + 1; i = i + 1; } res }";
+    let mut pkg = FileTree::test_file("p.roto", src, 0).compile(&rt).unwrap();
+    let f = pkg.get_function::<fn(u32) -> u32>("main").unwrap().into_func();
+    let (tx, rx) = std::sync::mpsc::channel::<()>();
+    let t = std::thread::spawn(move || {
+        rx.recv().unwrap();
+        let mut s = 0u64;
+        for x in 0..1000u32 { s += f(x) as u64; }
+        s
+    });
+    drop(pkg);
+    drop(rt);
+    tx.send(()).unwrap();
+    let s = t.join().unwrap();
+    println!("FINAL {}", s);
+}
+"#;
+
 struct ProbeResult {
     built: bool,
     diagnostics: String,
@@ -934,12 +975,54 @@ fn probes(repo: &Path, fn_bounds: Option<&str>, rep: &mut Report) {
     }
     rep.evaluations += 1;
     rep.class(format!("probe atomic_closure built={}", at.built));
-    rep.sample(json!({"probe": {"cell_closure": {"built": cell.built, "rejected_for_sync": sync_error, "output": cell.output.trim()},
+    // sum of x*x for x < 1000
+    const INTO_FUNC_SUM: u64 = 332_833_500;
+    let inf = run_probe(repo, "into_func_send", PROBE_INTO_FUNC_SEND);
+    rep.hist("rustc-probe", format!("into_func_send:{}", if inf.built { "accepted" } else { "rejected" }));
+    let not_send = inf.diagnostics.contains("E0277")
+        && (inf.diagnostics.contains("cannot be sent between threads safely") || inf.diagnostics.contains("cannot be shared between threads safely"));
+    if !inf.built && !not_send {
+        // the probe did not build for another reason than an auto-trait error: that says nothing about the property
+        rep.mismatch(
+            "rustc probe into_func_send failed to build for another reason than a Send / Sync error",
+            json!({"diagnostics": inf.diagnostics[inf.diagnostics.find("error").unwrap_or(0)..].chars().take(1500).collect::<String>()}),
+        );
+    } else if !inf.built {
+        rep.violation(
+            "the closure returned by TypedFunc::into_func can no longer be moved to another thread (it stopped being Send: it no longer owns the handle, whose Send/Sync impls made it so)",
+            "into-func-closure-not-send",
+            json!({"kind": "probe", "program": "into_func_send",
+                "diagnostics": inf.diagnostics[inf.diagnostics.find("error").unwrap_or(0)..].chars().take(1500).collect::<String>()}),
+        );
+    } else if final_count(&inf.output) != Some(INTO_FUNC_SUM) {
+        rep.violation(
+            "an into_func closure moved to another thread and called there after the package and the runtime were dropped died or returned wrong results",
+            "into-func-closure-dangles",
+            json!({"kind": "probe", "program": "into_func_send", "final": final_count(&inf.output), "expected": INTO_FUNC_SUM, "output": inf.output.chars().take(300).collect::<String>()}),
+        );
+    }
+    rep.evaluations += 1;
+    rep.class(format!("probe into_func_send built={}", inf.built));
+
+    rep.sample(json!({"probe": {"into_func_send": {"built": inf.built, "output": inf.output.trim()}, "cell_closure": {"built": cell.built, "rejected_for_sync": sync_error, "output": cell.output.trim()},
         "rc_constant": {"built": rc.built}, "atomic_closure": {"built": at.built, "output": at.output.trim()}},
         "model_admits_send_not_sync_closure": model_admits}));
 }
 
 // ------------------------------------------------------------ entry points
+
+fn report_json(rep: &Report) -> Value {
+    json!({
+        "evaluations": rep.evaluations,
+        "distinct_nontrivial": rep.classes.len(),
+        "classes": rep.classes,
+        "impl_violations": rep.impl_violations,
+        "model_mismatches": rep.model_mismatches,
+        "samples": rep.samples,
+        "histograms": rep.histograms,
+        "notes": rep.notes,
+    })
+}
 
 fn arg_after<'a>(a: &'a [String], key: &str) -> Option<&'a str> {
     a.iter().position(|x| x == key).and_then(|i| a.get(i + 1)).map(|s| s.as_str())
@@ -961,10 +1044,40 @@ fn on_crash(rep: &mut Report, seed: u64, tiername: &str, index: u64, ended: &End
         );
         return;
     }
+    let panic_note: Vec<String> = rep.notes.iter().filter(|n| n.starts_with("worker panicked")).cloned().collect();
+    // The Lean driver is a separate process; when IT dies (killed from outside, out of memory) the
+    // harness panics in `Driver::ask`. That says nothing about roto: re-run the case once in a fresh
+    // worker with a fresh driver and judge that run instead.
+    let driver_died = !panic_note.is_empty()
+        && panic_note.iter().all(|n| n.contains("Lean driver closed its output") || n.contains("driver stdin") || n.contains("driver stdout") || n.contains("driver flush") || n.contains("a scoped thread panicked"))
+        && panic_note.iter().any(|n| n.contains("driver"));
+    if driver_died && std::env::var("C12_NO_RERUN").is_err() {
+        let (seed_s, idx_s) = (seed.to_string(), index.to_string());
+        let (ended2, out) = worker::run_worker_keep_stdout(&["stress", &seed_s, tiername, &idx_s, "1"], Duration::from_secs(900));
+        rep.notes.retain(|n| !n.starts_with("worker panicked"));
+        rep.notes.push(format!("stress case {index}: the Lean driver process died ({}); the case was run again with a fresh driver", panic_note.join(" | ")));
+        if let Some(r) = Report::parse_stdout(&out) {
+            rep.merge_json(&r);
+        }
+        if matches!(ended2, Ended::Exit(0, _)) {
+            return;
+        }
+        return on_crash_final(rep, seed, tiername, index, &ended2);
+    }
+    on_crash_final(rep, seed, tiername, index, ended)
+}
+
+fn on_crash_final(rep: &mut Report, seed: u64, tiername: &str, index: u64, ended: &Ended) {
+    let how = match ended {
+        Ended::Signal(s, _) => format!("signal {s}"),
+        Ended::Exit(c, _) => format!("exit {c}"),
+        Ended::Timeout => "timeout".to_string(),
+    };
+    let panic_note: Vec<&String> = rep.notes.iter().filter(|n| n.starts_with("worker panicked")).collect();
     rep.violation(
         "a process running concurrent calls / compilations / drops died or hung",
         "crash-or-hang-under-concurrency",
-        json!({"kind": "stress", "seed": seed, "index": index, "tier": tiername, "ended": how}),
+        json!({"kind": "stress", "seed": seed, "index": index, "tier": tiername, "ended": how, "panic": panic_note}),
     );
 }
 
@@ -989,6 +1102,10 @@ fn main() {
             let s = gen_script(&mut Prng::for_case(seed, index));
             println!("// {} {}\n{}", s.family, s.flags, s.src);
         }
+        Some("worker") if a.get(2).map(|s| s.as_str()) == Some("share") => {
+            // worker share <class> <seed> <index> <tier> <attempt>
+            share::worker_main(&a);
+        }
         Some("worker") => {
             // worker stress <seed> <tier> <from> <n>
             let seed: u64 = a[3].parse().unwrap();
@@ -996,6 +1113,29 @@ fn main() {
             let from: u64 = a[5].parse().unwrap();
             let n: u64 = a[6].parse().unwrap();
             let mut rep = Report::default();
+            // a panic in any thread (harness or roto) is reported with its message and place:
+            // the hook re-emits the last cumulative report with a note (stderr of workers is not kept)
+            std::panic::set_hook(Box::new(|info| {
+                let mut v: Value = LAST_REPORT
+                    .lock()
+                    .ok()
+                    .and_then(|s| serde_json::from_str(&s).ok())
+                    .unwrap_or_else(|| json!({}));
+                let note = format!(
+                    "worker panicked in thread {:?}: {}",
+                    std::thread::current().name().unwrap_or("?"),
+                    info.to_string().replace('\n', " ")
+                );
+                match v.get_mut("notes").and_then(|n| n.as_array_mut()) {
+                    Some(a) => a.push(json!(note)),
+                    None => v["notes"] = json!([note]),
+                }
+                println!("HARNESS-REPORT {v}");
+                let _ = std::io::stdout().flush();
+                if let Ok(mut s) = LAST_REPORT.lock() {
+                    *s = v.to_string();
+                }
+            }));
             let mut drv = Driver::spawn().expect("lean driver");
             for index in from..from + n {
                 println!("START {index}");
@@ -1004,6 +1144,9 @@ fn main() {
                 // cumulative report after every case: a crash in a later
                 // case must not lose what was found before it
                 rep.emit();
+                if let Ok(mut s) = LAST_REPORT.lock() {
+                    *s = report_json(&rep).to_string();
+                }
                 let _ = std::io::stdout().flush();
             }
             rep.emit();
@@ -1016,6 +1159,10 @@ fn main() {
                 .or_else(|| std::env::var("ROTO_REPO").ok().map(PathBuf::from))
                 .unwrap_or_else(|| PathBuf::from("/repo"));
             let mut rep = Report::default();
+            // state shared between threads through the safe API: lists, registered
+            // closures / constants, into_func closures (one worker process per case)
+            let focus = share::parse_focus(arg_after(&a, "--focus"));
+            share::run_pass(seed, &tiername, &focus, 0, 0, &mut rep, &mut vec![], None);
             probes(&repo, arg_after(&a, "--fn-bounds"), &mut rep);
             let t = tier(&tiername);
             let seed_s = seed.to_string();
@@ -1027,6 +1174,17 @@ fn main() {
                 &mut rep,
                 |rep, idx, ended| on_crash(rep, seed, &tiername, idx, ended),
             );
+            rep.emit();
+        }
+        Some("share") => {
+            // share <seed> <tier> [--focus c1,c2] [--budget-s N]: the share classes only, new
+            // indices and escalating attempts until a violation is found or the budget is used
+            let seed: u64 = a[2].parse().unwrap();
+            let tiername = a[3].clone();
+            let focus = share::parse_focus(arg_after(&a, "--focus"));
+            let budget = arg_after(&a, "--budget-s").and_then(|s| s.parse().ok()).unwrap_or(90u64);
+            let mut rep = Report::default();
+            share::search(seed, &tiername, &focus, Duration::from_secs(budget), &mut rep);
             rep.emit();
         }
         Some("stress") => {
@@ -1055,6 +1213,8 @@ fn main() {
             if case["kind"] == "probe" {
                 let repo = std::env::var("ROTO_REPO").map(PathBuf::from).unwrap_or_else(|_| PathBuf::from("/repo"));
                 probes(&repo, None, &mut rep);
+            } else if case["kind"] == "share" {
+                share::replay(&case, &mut rep);
             } else {
                 let seed = case["seed"].as_u64().unwrap_or(1);
                 let index = case["index"].as_u64().unwrap_or(0);
@@ -1074,7 +1234,7 @@ fn main() {
             rep.emit();
         }
         _ => {
-            eprintln!("usage: c12 run <seed> <tier> [--repo p] [--fn-bounds b] | replay <json> | dump <src> | gen <seed> <index>");
+            eprintln!("usage: c12 run <seed> <tier> [--repo p] [--fn-bounds b] [--focus c1,c2] | share <seed> <tier> [--focus c1,c2] [--budget-s N] | replay <json> | dump <src> | gen <seed> <index>");
             std::process::exit(64);
         }
     }
